@@ -97,6 +97,9 @@ func c11Pem(c *hx.Ctx, dat []byte, class string) {
 			if sk == nil && pk == nil {
 				c.Failf("keypem-no-key-no-error", desc, "ParseKeyPem returned neither a key nor an error")
 			}
+			if blk, _ := pem.Decode(dat); blk != nil && ((sk != nil && !bytes.Contains(blk.Bytes, rawPriv(sk))) || (pk != nil && !bytes.Contains(blk.Bytes, rawPub(pk)))) {
+				c.Failf("key-not-in-input", desc, "ParseKeyPem returned a key that does not occur in the PEM body (read past the input?)")
+			}
 			if sk != nil && (pk == nil || !bytes.Equal(rawPub(sk.GetPublic()), rawPub(pk))) {
 				c.Failf("parsekeypem-public-differs", desc, "ParseKeyPem public key is not the private key's public key")
 			}
@@ -206,6 +209,20 @@ func c11Conf(c *hx.Ctx, s string, class string) (crypto.PrivKey, crypto.PubKey) 
 		c.Failf("confparse-no-key-no-error", desc, "ParsePublicKey returned neither a key nor an error for a non-blank field")
 	}
 	c.Case(hx.App("ConfPub", hx.Str(s), pr, o), desc)
+	if !strings.HasPrefix(t, "-----BEGIN") {
+		if dec, derr := b58.Decode(t); derr == nil {
+			if sk != nil && err == nil && !bytes.Contains(dec, rawPriv(sk)) {
+				c.Failf("key-not-in-input", desc, "ParsePrivateKey returned a key that does not occur in the decoded text")
+			}
+			if pk != nil && perr == nil && !bytes.Contains(dec, rawPub(pk)) {
+				c.Failf("key-not-in-input", desc, "ParsePublicKey returned a key %x that does not occur in the decoded text (read past the input?)", rawPub(pk))
+			}
+		}
+	} else if blk, _ := pem.Decode([]byte(t)); blk != nil {
+		if (sk != nil && err == nil && !bytes.Contains(blk.Bytes, rawPriv(sk))) || (pk != nil && perr == nil && !bytes.Contains(blk.Bytes, rawPub(pk))) {
+			c.Failf("key-not-in-input", desc, "configuration PEM: returned key does not occur in the PEM body")
+		}
+	}
 	return sk, pk
 }
 
@@ -395,6 +412,11 @@ func c11(c *hx.Ctx) {
 		c.Eval()
 		keys = append(keys, kp{raw: raw, pub: pub, privPem: privPem, pubPem: pubPem, privB58: s, pubB58: ps, sk: sk, pk: pk, marshalled: m})
 	}
+	{
+		k := keys[0]
+		mp, _ := crypto.MarshalPublicKey(k.pk)
+		c11Prefixes(c, k.raw, k.pub, k.marshalled, mp, k.privPem, k.pubPem, k.privB58, k.pubB58)
+	}
 	// nil std keys: error, not panic
 	for _, f := range []func() error{
 		func() error { _, _, e := crypto.KeyPairFromStdKey(nil); return e },
@@ -444,21 +466,7 @@ func c11(c *hx.Ctx) {
 				data = cat(k.raw, c.RandBytes(32))
 			}
 			pb, pc := randProto(c, ty, data)
-			c.Class("priv-" + pc)
-			desc := map[string]any{"kind": "unmarshal-priv", "class": pc, "bytes": hx.Hex(pb)}
-			var sk crypto.PrivKey
-			var err error
-			var p bool
-			o := guarded(c, "UnmarshalPrivateKey", desc, [][]byte{pb}, func() string {
-				p, _ = hx.Catch(func() { sk, err = crypto.UnmarshalPrivateKey(pb) })
-				return obsBytes(p, rawPriv(sk), err, keyErrClass(err))
-			})
-			c.Case(hx.App("UnmarshalPriv", hx.Bytes(pb), o), desc)
-			if p {
-				c.Failf("unmarshalprivatekey-panic", desc, "UnmarshalPrivateKey panicked")
-			} else if err == nil && sk == nil {
-				c.Failf("unmarshal-no-key-no-error", desc, "UnmarshalPrivateKey returned neither a key nor an error")
-			}
+			c11PrivProto(c, pb, "priv-"+pc)
 			if c.Rng.Intn(2) == 0 {
 				c11Conf(c, b58.Encode(pb), "conf-b58-of-"+pc)
 			}
@@ -545,6 +553,122 @@ func c11(c *hx.Ctx) {
 			}
 		default: // base58 of random bytes
 			c11Conf(c, b58.Encode(c.RandBytes(1+c.Rng.Intn(70))), "conf-b58-random")
+		}
+	}
+}
+
+// c11PrivProto: crypto.UnmarshalPrivateKey on d with the 'key or error' oracle.
+func c11PrivProto(c *hx.Ctx, d []byte, class string) crypto.PrivKey {
+	c.Class(class)
+	desc := map[string]any{"kind": "unmarshal-priv", "class": class, "bytes": hx.Hex(d), "cap_minus_len": cap(d) - len(d)}
+	var sk crypto.PrivKey
+	var err error
+	var p bool
+	o := guarded(c, "UnmarshalPrivateKey", desc, [][]byte{d}, func() string {
+		p, _ = hx.Catch(func() { sk, err = crypto.UnmarshalPrivateKey(d) })
+		return obsBytes(p, rawPriv(sk), err, keyErrClass(err))
+	})
+	c.Case(hx.App("UnmarshalPriv", hx.Bytes(d), o), desc)
+	switch {
+	case p:
+		c.Failf("unmarshalprivatekey-panic", desc, "UnmarshalPrivateKey panicked")
+		return nil
+	case err == nil && sk == nil:
+		c.Failf("unmarshal-no-key-no-error", desc, "UnmarshalPrivateKey returned neither a key nor an error")
+	case err == nil:
+		if raw := rawPriv(sk); len(raw) != 64 || !bytes.Contains(d, raw) {
+			c.Failf("key-not-in-input", desc, "returned key %x does not occur in the input (read past the input?)", raw)
+		}
+		var pub []byte
+		if pp, _ := hx.Catch(func() { pub = rawPub(sk.GetPublic()) }); pp || len(pub) != 32 {
+			c.Failf("getpublic-panic", desc, "GetPublic of the decoded key failed")
+		}
+	}
+	if cap(d) > len(d) && !spareIntact(d) {
+		c.Failf("writes-past-len", desc, "UnmarshalPrivateKey wrote past the end of the input slice")
+	}
+	if err != nil {
+		return nil
+	}
+	return sk
+}
+
+// c11PubProto: crypto.UnmarshalPublicKey on d with the 'key or error' oracle.
+func c11PubProto(c *hx.Ctx, d []byte, class string) {
+	c.Class(class)
+	desc := map[string]any{"kind": "unmarshal-pub", "class": class, "bytes": hx.Hex(d), "cap_minus_len": cap(d) - len(d)}
+	var pk crypto.PubKey
+	var err error
+	var p bool
+	o := guarded(c, "UnmarshalPublicKey", desc, [][]byte{d}, func() string {
+		p, _ = hx.Catch(func() { pk, err = crypto.UnmarshalPublicKey(d) })
+		return obsBytes(p, rawPub(pk), err, keyErrClass(err))
+	})
+	c.Case(hx.App("UnmarshalPubKey", hx.Bytes(d), o), desc)
+	switch {
+	case p:
+		c.Failf("unmarshalpublickey-panic", desc, "UnmarshalPublicKey panicked")
+	case err == nil && pk == nil:
+		c.Failf("unmarshal-no-key-no-error", desc, "UnmarshalPublicKey returned neither a key nor an error")
+	case err == nil:
+		if raw := rawPub(pk); len(raw) != 32 || !bytes.Contains(d, raw) {
+			c.Failf("key-not-in-input", desc, "returned key %x does not occur in the input (read past the input?)", raw)
+		}
+	}
+	if cap(d) > len(d) && !spareIntact(d) {
+		c.Failf("writes-past-len", desc, "UnmarshalPublicKey wrote past the end of the input slice")
+	}
+}
+
+// c11Prefixes: every proper prefix (exact and spare capacity) and trailing-byte
+// extension of the valid encodings of one key: protobuf (public, private 64 and
+// 96 byte forms), raw Ed25519 private key, base58 text, PEM text (cuts inside
+// the header lines and the base64 body) and PEM blocks whose body is a prefix.
+func c11Prefixes(c *hx.Ctx, raw, pub, privM, pubM, privPem, pubPem []byte, privB58, pubB58 string) {
+	thorough := c.Tier == "thorough"
+	st := func(quick int) int {
+		if thorough {
+			return 1
+		}
+		return quick
+	}
+	for _, v := range truncations(c, pubM, 1) {
+		c11PubProto(c, v.b, "pubkey-"+v.kind)
+	}
+	for _, v := range truncations(c, privM, st(2)) {
+		c11PrivProto(c, v.b, "privkey-"+v.kind)
+	}
+	m96 := cat(pbVarint(1, 1), pbBytes(2, cat(raw, pub)))
+	for _, v := range truncations(c, m96, st(5)) {
+		c11PrivProto(c, v.b, "privkey96-"+v.kind)
+	}
+	for _, v := range truncations(c, cat(raw, pub), st(5)) {
+		c11EdPriv(c, v.b, "ed-"+v.kind)
+	}
+	// text forms: the decoder output of base58 has spare capacity, so an over-read shows up here too
+	for _, t := range textCuts(pubB58, st(2)) {
+		c11Conf(c, t, "conf-b58-pub-cut")
+	}
+	for _, t := range textCuts(privB58, st(4)) {
+		c11Conf(c, t, "conf-b58-priv-cut")
+	}
+	// base58 / PEM of every truncated protobuf body
+	for n := 0; n < len(pubM); n += st(2) {
+		c11Conf(c, b58.Encode(pubM[:n]), "conf-b58-of-pub-prefix")
+		c11Pem(c, pem.EncodeToMemory(&pem.Block{Type: keypem.PubPemType, Bytes: pubM[:n]}), "pem-of-pub-prefix")
+	}
+	for n := 0; n < len(privM); n += st(6) {
+		c11Conf(c, b58.Encode(privM[:n]), "conf-b58-of-priv-prefix")
+		c11Pem(c, pem.EncodeToMemory(&pem.Block{Type: keypem.PrivPemType, Bytes: privM[:n]}), "pem-of-priv-prefix")
+	}
+	// cuts of the PEM text itself
+	for _, t := range textCuts(string(pubPem), st(4)) {
+		c11Pem(c, []byte(t), "pem-pub-text-cut")
+	}
+	for _, t := range textCuts(string(privPem), st(7)) {
+		c11Pem(c, []byte(t), "pem-priv-text-cut")
+		if len(t)%3 == 0 {
+			c11Conf(c, t, "conf-pem-priv-text-cut")
 		}
 	}
 }
